@@ -153,7 +153,16 @@ def nontrivial(hx):
     return bool(re.search(r'<(?!/|p>)', hx))
 
 
-def work(chunk):
+def _trim(v, n=3000):
+    if isinstance(v, str):
+        return v if len(v) <= n else v[:n] + '...[%d chars]' % len(v)
+    if isinstance(v, dict):
+        return {k: _trim(w, n) for k, w in v.items()}
+    return v
+
+
+def work(job):
+    chunk, per_chunk = job
     res = {'evaluations': 0, 'contract_evaluations': 0, 'failures': [], 'samples': [],
            'nontrivial': [], 'failing_cases': 0, 'shrink_evals': 0, 'kinds': {}, 'maxdepth': 0}
     shrunk = 0
@@ -182,7 +191,7 @@ def work(chunk):
             for contract, observed, expected in bad:
                 res['failing_cases'] += 1
                 mx = x
-                if tree is not None and shrunk < SHRINK_PER_CHUNK:
+                if tree is not None and shrunk < per_chunk:
                     shrunk += 1
 
                     def fails(t, contract=contract, nw=nw, normal=normal):
@@ -208,7 +217,7 @@ def work(chunk):
                 res['failures'].append({
                     'key': key, 'contract': contract, 'class': cls,
                     'input': {'markdown': mx, 'normalize_whitespace': nw, 'source': ident},
-                    'observed': observed, 'expected': expected,
+                    'observed': _trim(observed), 'expected': _trim(expected),
                     'replay': ('from mistletoe import Document, HtmlRenderer; '
                                'from mistletoe.markdown_renderer import MarkdownRenderer\n'
                                'x = %r\nwith MarkdownRenderer(normalize_whitespace=%s) as m: r = m.render(Document(x))\n'
@@ -227,26 +236,32 @@ def run(tier, seed, workers):
     cases += [('gen', 'free', base + i) for i in range(n_free)]
     cases += [('gen', 'normal', base + i) for i in range(n_normal)]
     chunks = [cases[i:i + CHUNK] for i in range(0, len(cases), CHUNK)]
-    # interleave so that every worker gets a mix of cheap and expensive work items
-    parts = pool_map(work, chunks, workers)
+    per_chunk = SHRINK_PER_CHUNK if tier == 'quick' else 2
     out = {'evaluations': 0, 'contract_evaluations': 0, 'failing_cases': 0, 'shrink_evals': 0}
     failures, samples, nontriv, kinds, maxdepth = {}, [], set(), {}, 0
-    for p in parts:
-        for k in out:
-            out[k] += p[k]
-        nontriv.update(p['nontrivial'])
-        for k, v in p['kinds'].items():
-            kinds[k] = kinds.get(k, 0) + v
-        maxdepth = max(maxdepth, p['maxdepth'])
-        if len(samples) < 8:
-            samples.extend(p['samples'][:1])
-        for f in p['failures']:
-            failures.setdefault(f['key'], f)
-    fl = sorted(failures.values(), key=lambda f: (len(f['input']['markdown']), f['input']['markdown'], f['key']))
-    classes = {}
-    for f in fl:
-        c = '%s|%s' % (f['contract'], f['class'])
-        classes[c] = classes.get(c, 0) + 1
+    seen, classes = set(), {}
+    order = lambda f: (len(f['input']['markdown']), f['input']['markdown'], f['key'])  # noqa: E731
+    step = max(1, workers) * 40
+    for lo in range(0, len(chunks), step):
+        for p in pool_map(work, [(c, per_chunk) for c in chunks[lo:lo + step]], workers):
+            for k in out:
+                out[k] += p[k]
+            nontriv.update(p['nontrivial'])
+            for k, v in p['kinds'].items():
+                kinds[k] = kinds.get(k, 0) + v
+            maxdepth = max(maxdepth, p['maxdepth'])
+            if len(samples) < 8:
+                samples.extend(p['samples'][:1])
+            for f in p['failures']:
+                h = hash(f['key'])
+                if h not in seen:
+                    seen.add(h)
+                    c = '%s|%s' % (f['contract'], f['class'])
+                    classes[c] = classes.get(c, 0) + 1
+                    failures[f['key']] = f
+        if len(failures) > 4 * MAX_FAILURES + 2000:       # bound the memory: keep the smallest
+            failures = {f['key']: f for f in sorted(failures.values(), key=order)[:MAX_FAILURES + 200]}
+    fl = sorted(failures.values(), key=order)
     out.update({
         'domain': ('SPEC: the 652 CommonMark 0.30 examples; DOCS: %d mdgen documents in mode free '
                    '(every block/inline construct, canonical and non-canonical spellings, container '
@@ -262,7 +277,7 @@ def run(tier, seed, workers):
         'exhaustive': False,
         'samples': samples[:8],
         'node_kind_counts': kinds,
-        'failures_total': len(fl),
+        'failures_total': len(seen),
         'class_counts': classes,
         'failures': fl[:MAX_FAILURES],
         'elapsed_s': round(t.s(), 1),
